@@ -34,6 +34,9 @@ func sub[T any](o ro.Observable[T], rec *h.Rec) ro.Subscription {
 }
 
 func subOne[T any](o ro.Observable[T], rec *h.Rec) ro.Subscription {
+	if takeOne {
+		o = ro.Take[T](1)(o) // C14 multi-source family: the downstream ends at the first value
+	}
 	if rec.Raw {
 		return o.SubscribeWithContext(ctxWith(), h.RawObserver[T](rec))
 	}
@@ -44,6 +47,7 @@ var (
 	alsoSub          *h.Rec
 	alsoSubscription ro.Subscription
 	deferSub         func(run func())
+	takeOne          bool
 )
 
 //go:norace
